@@ -42,6 +42,10 @@ pub enum Focus {
     Apply,
     /// C11: substitution
     Subs,
+    /// C03: conversion between the forms
+    Convert,
+    /// C06: nothing but panics
+    Crash,
 }
 impl Focus {
     fn judges(self, a: &DAct) -> bool {
@@ -50,6 +54,8 @@ impl Focus {
             Focus::Diff => matches!(a, DAct::Partial(_) | DAct::Nth(..)),
             Focus::Apply => matches!(a, DAct::Un(_) | DAct::Bin(..)),
             Focus::Subs => matches!(a, DAct::Subs(..) | DAct::SubsNone | DAct::Into(_)),
+            Focus::Convert => matches!(a, DAct::Convert),
+            Focus::Crash => false,
         }
     }
 }
@@ -57,7 +63,9 @@ impl Focus {
 #[derive(Clone)]
 pub struct Derive {
     pub table: Arc<Table>,
-    pub bases: Arc<Vec<(&'static str, Tree)>>,
+    /// (text, tree, differentiate with respect to this variable index first: a root that already
+    /// lists a variable which no longer occurs)
+    pub bases: Arc<Vec<(&'static str, Tree, Option<usize>)>>,
     /// (text, tree, differentiate with respect to this variable index first)
     pub pool: Arc<Vec<(&'static str, Tree, Option<usize>)>>,
     pub carriers: Arc<Vec<(&'static str, Tree)>>,
@@ -145,6 +153,22 @@ struct RefSt {
 }
 
 impl Derive {
+    fn base_ref(&self, i: usize) -> RefSt {
+        let (_, tree, d) = &self.bases[i];
+        let declared = tree.vars();
+        match d {
+            Some(k) => RefSt { tree: diff_tree(tree, &declared[*k], &self.table), declared },
+            None => RefSt { tree: tree.clone(), declared },
+        }
+    }
+    fn base_lib(&self, i: usize, deep: bool) -> Result<Ex<Fe>, String> {
+        let (text, _, d) = &self.bases[i];
+        let e = Ex::<Fe>::parse(text, deep).map_err(|e| format!("base rejected: {}", e.msg()))?;
+        match d {
+            Some(k) => e.partial(*k).map_err(|e| format!("derivative of the base failed: {}", e.msg())),
+            None => Ok(e),
+        }
+    }
     fn pool_ref(&self, j: usize) -> RefSt {
         let (_, tree, d) = &self.pool[j];
         let declared = tree.vars();
@@ -249,7 +273,7 @@ impl Derive {
             }
         };
         match a {
-            DAct::Init(i, deep) => format!("{}::parse({:?})", if *deep { "DeepEx" } else { "FlatEx" }, self.bases[*i].0),
+            DAct::Init(i, deep) => format!("{}::parse({:?}){}", if *deep { "DeepEx" } else { "FlatEx" }, self.bases[*i].0, self.bases[*i].2.map(|k| format!(".partial({k})")).unwrap_or_default()),
             DAct::Partial(i) => format!("partial({i}) [d/d{}]", name(i)),
             DAct::Nth(i, n) => format!("partial_nth({i}, {n}) [d/d{}]", name(i)),
             DAct::Convert => "convert to the other form".into(),
@@ -269,8 +293,7 @@ impl Derive {
     /// reference replay (largest admissible variable lists)
     fn ref_replay(&self, hist: &[DAct]) -> RefSt {
         let DAct::Init(i, _) = &hist[0] else { unreachable!() };
-        let tree = self.bases[*i].1.clone();
-        let mut st = RefSt { declared: tree.vars(), tree };
+        let mut st = self.base_ref(*i);
         for a in &hist[1..] {
             st = self.ref_step(&st, a, None).0;
         }
@@ -332,8 +355,7 @@ impl Hist for Derive {
             match (&st, a) {
                 (None, DAct::Init(i, _)) => {
                     steps.push(self.act_text(a, &[]));
-                    let tree = self.bases[*i].1.clone();
-                    st = Some(RefSt { declared: tree.vars(), tree });
+                    st = Some(self.base_ref(*i));
                 }
                 (Some(s), a) => {
                     steps.push(self.act_text(a, &s.declared));
@@ -348,16 +370,15 @@ impl Hist for Derive {
         let mut out = Outcome { key: String::new(), bad: vec![], terminal: false, steps: 0 };
         let DAct::Init(i0, deep) = &hist[0] else { unreachable!() };
         let form = if *deep { "deep" } else { "flat" };
-        let mut cur = match Ex::<Fe>::parse(self.bases[*i0].0, *deep) {
+        let mut cur = match self.base_lib(*i0, *deep) {
             Ok(e) => e,
-            Err(e) => {
-                out.bad.push((format!("{form}:parse"), format!("base rejected: {}", e.msg())));
+            Err(m) => {
+                out.bad.push((format!("{form}:parse"), m));
                 out.terminal = true;
                 return out;
             }
         };
-        let tree = self.bases[*i0].1.clone();
-        let mut st = RefSt { declared: tree.vars(), tree };
+        let mut st = self.base_ref(*i0);
         let last = hist.len() - 1;
         for (pos, a) in hist.iter().enumerate().skip(1) {
             out.steps += 1;
@@ -458,7 +479,12 @@ fn read_texts(texts: &[&'static str], t: &Table, prop: &str) -> Vec<(&'static st
 /// explore the derived-expression histories with the steps of `focus` judged
 pub fn run_derived(rep: &mut Report, prop: &str, focus: Focus, thorough: bool) {
     let t = num_table();
-    let bases = read_texts(if thorough { &["x*y+z", "x+sin(y)", "3*x+y", "x*x*y", "(y+1)*x", "sin(x*y)/z", "x^2-y", "z", "cos(x)-cos(y)*x"][..] } else { &["x*y+z", "x+sin(y)", "3*x+y", "(y+1)*x", "x^2-y"][..] }, &t, prop);
+    let base_src: Vec<(&'static str, Option<usize>)> = if thorough {
+        vec![("x*y+z", None), ("x+sin(y)", None), ("3*x+y", None), ("x*x*y", None), ("(y+1)*x", None), ("sin(x*y)/z", None), ("x^2-y", None), ("z", None), ("cos(x)-cos(y)*x", None), ("3*x+y", Some(0)), ("x", Some(0)), ("x*y+z", Some(0)), ("x+sin(y)", Some(1))]
+    } else {
+        vec![("x*y+z", None), ("x+sin(y)", None), ("3*x+y", None), ("(y+1)*x", None), ("x^2-y", None), ("3*x+y", Some(0)), ("x+sin(y)", Some(1))]
+    };
+    let bases: Vec<(&'static str, Tree, Option<usize>)> = base_src.iter().map(|(s, d)| (*s, read_texts(&[*s], &t, prop).remove(0).1, *d)).collect();
     let pool_src: Vec<(&'static str, Option<usize>)> = vec![("w", None), ("x", None), ("2", None), ("x+1", None), ("x*y+z", Some(0)), ("3*x+y", Some(0)), ("x+sin(y)", Some(1))];
     let pool: Vec<(&'static str, Tree, Option<usize>)> = pool_src.iter().map(|(s, d)| (*s, read_texts(&[*s], &t, prop).remove(0).1, *d)).collect();
     let carriers = read_texts(&["u*2+v", "(u+1)*x", "sin(u)"], &t, prop);
